@@ -28,6 +28,8 @@ type C08Params struct {
 	RulesPath string       `json:"rules_path"`
 	// PreUpdate: targets (indices in sorted order) brought up to date before every history, so that compare sees a mix of current and stale rules
 	PreUpdate []int `json:"pre_update,omitempty"`
+	// NoFile: every command of the scenario runs under this limit of open files (0 = none)
+	NoFile int `json:"nofile,omitempty"`
 	// PreFormat: every history starts from the tree formatted with `format --all`, so that format --check has nothing to report but its lint
 	PreFormat bool `json:"pre_format,omitempty"`
 }
@@ -72,6 +74,16 @@ func genC08(t *rapid.T, tier string) (*World, any) {
 	if len(targets) > 6 {
 		targets = targets[:6]
 	}
+	manyFiles := chance(t, 4, "manyfiles")
+	if manyFiles {
+		// more data files than the process may hold open at once: each is handled and released in turn
+		for k := 0; k < 48; k++ {
+			id := fmt.Sprintf("9422%02d", k)
+			rf.Rules = append(rf.Rules, RuleSpec{ID: id, Ops: []string{"@rx"}, Regex: []string{"old"}})
+			w.Put("crs/regex-assembly/"+id+".ra", fmt.Sprintf("many%d\nfiles%d\n", k, k%7))
+		}
+		p.NoFile = 40
+	}
 	renderRuleFile(rf, RulesOpts{}, "# rules\n\n", nil)
 	w.Put(rf.Path, rf.Content)
 	w.Put("crs/regex-assembly/include/inc1.ra", "abs\nbes\ncx\n")
@@ -113,7 +125,8 @@ func genC08(t *rapid.T, tier string) (*World, any) {
 	}
 	// cross-file probes
 	sort.Strings(targets)
-	p.Probe = pick(t, []string{"none", "none", "stash-writer-reader", "unclosed-block", "definition-elsewhere", "flags-elsewhere", "prefix-elsewhere", "exclude-under-other-definitions", "file-format-rejects", "uppercase-class-elsewhere", "cmdline-both-shells", "linked-data-file", "chain-number-beyond-255"}, "probe")
+	_ = manyFiles
+	p.Probe = pick(t, []string{"none", "none", "stash-writer-reader", "unclosed-block", "definition-elsewhere", "flags-elsewhere", "prefix-elsewhere", "exclude-under-other-definitions", "file-format-rejects", "uppercase-class-elsewhere", "cmdline-both-shells", "linked-data-file", "chain-number-beyond-255", "many-files-few-descriptors"}, "probe")
 	a, b := targets[0], targets[1]
 	if drawBool(t, "probe-swap") {
 		a, b = b, a
@@ -171,6 +184,9 @@ func genC08(t *rapid.T, tier string) (*World, any) {
 	}
 	// orders of single invocations
 	n := len(targets)
+	if manyFiles {
+		n += 48
+	}
 	if p.Cmd == "format" || p.Cmd == "format-check" {
 		// the include files are addressable too
 		for path := range w.Files {
@@ -293,11 +309,11 @@ func evalC08(sc *Scenario, sim *Sim) ([]Violation, bool, string) {
 	restore := func() {
 		sb.Restore(sc.World)
 		if p.PreFormat {
-			sb.Run(Step{Argv: []string{"regex", "format", "--all"}, Cwd: "crs"})
+			sb.Run(Step{NoFile: p.NoFile, Argv: []string{"regex", "format", "--all"}, Cwd: "crs"})
 		}
 		for _, i := range p.PreUpdate {
 			if i < len(items) {
-				sb.Run(Step{Argv: []string{"regex", "update", items[i].Arg}, Cwd: "crs"})
+				sb.Run(Step{NoFile: p.NoFile, Argv: []string{"regex", "update", items[i].Arg}, Cwd: "crs"})
 			}
 		}
 	}
@@ -344,7 +360,7 @@ func evalC08(sc *Scenario, sim *Sim) ([]Violation, bool, string) {
 	firstFail := -1
 	abortsOnFailure := p.Cmd == "update" || p.Cmd == "compare" || p.Cmd == "compare-gh"
 	for i, it := range items {
-		r := sb.Run(Step{Argv: argvSingle(it.Arg), Cwd: "crs", Plan: plan()})
+		r := sb.Run(Step{NoFile: p.NoFile, Argv: argvSingle(it.Arg), Cwd: "crs", Plan: plan()})
 		exits = append(exits, r.Exit)
 		outs = append(outs, r.Stdout)
 		hardFail := r.Exit != 0
@@ -367,7 +383,7 @@ func evalC08(sc *Scenario, sim *Sim) ([]Violation, bool, string) {
 	// A: --all
 	restore()
 	startContents := raContents(sb, items)
-	ra := sb.Run(Step{Argv: argvAll(), Cwd: "crs", Plan: plan()})
+	ra := sb.Run(Step{NoFile: p.NoFile, Argv: argvAll(), Cwd: "crs", Plan: plan()})
 	diskA := raContents(sb, items, rulesPath)
 	switch p.Cmd {
 	case "update", "format":
@@ -457,7 +473,7 @@ func evalC08(sc *Scenario, sim *Sim) ([]Violation, bool, string) {
 				if idx >= len(subset) {
 					continue
 				}
-				sb.Run(Step{Argv: argvSingle(subset[idx].Arg), Cwd: "crs", Plan: plan()})
+				sb.Run(Step{NoFile: p.NoFile, Argv: argvSingle(subset[idx].Arg), Cwd: "crs", Plan: plan()})
 			}
 			diskB := raContents(sb, items, rulesPath)
 			if d := diffMaps(diskE, diskB); len(d) > 0 {
@@ -472,10 +488,11 @@ func evalC08(sc *Scenario, sim *Sim) ([]Violation, bool, string) {
 	if firstFail < 0 && (p.Cmd == "update" || p.Cmd == "format" || p.Cmd == "compare-gh") {
 		for _, dp := range p.DirPlan {
 			restore()
-			r := sb.Run(Step{Argv: argvAll(), Cwd: "crs", Plan: dp})
+			r := sb.Run(Step{NoFile: p.NoFile, Argv: argvAll(), Cwd: "crs", Plan: dp})
 			diskP := raContents(sb, items, rulesPath)
 			if d := diffMaps(diskA, diskP); len(d) > 0 {
-				add("traversal-order", "disk", "`--all` under a permuted directory listing leaves other bytes: "+strings.Join(d, " "), "")
+				add("traversal-order", "disk", "`--all` under a permuted directory listing leaves other bytes: "+strings.Join(d, " "),
+					fmt.Sprintf("exit %d, timed out %v\nstderr: %s\npermuted:\n%q\nidentity:\n%q", r.Exit, r.TimedOut, tailOf(r.Stderr, 1200), clip2([]byte(diskP[d[0]]), 3000), clip2([]byte(diskA[d[0]]), 3000)))
 				break
 			}
 			if r.Exit != ra.Exit {
@@ -508,4 +525,11 @@ func init() {
 		},
 		RealStub: realStubDefault,
 	})
+}
+
+func tailOf(b []byte, n int) string {
+	if len(b) > n {
+		return "..." + string(b[len(b)-n:])
+	}
+	return string(b)
 }
